@@ -756,7 +756,10 @@ func c14LearnSweep(c *core.Ctx) {
 	}
 	first := []raOpt{on("prefix/64"), on("mtu1500"), on("rdnss2"), on("dnssl"), on("slla")}
 	slla2 := raOpt{name: "slla'", raw: refnet.NDPOption(1, []byte{0x02, 0xaa, 0xbb, 0xcc, 0xdd, 0x77}), slla: []byte{0x02, 0xaa, 0xbb, 0xcc, 0xdd, 0x77}}
-	for _, second := range [][]raOpt{{}, {on("prefix/0")}, {on("mtu1280")}, {on("rdnss1")}, {on("route/0")}, {slla2}, {on("prefix/64"), on("mtu1500"), on("rdnss2"), on("dnssl"), slla2}} {
+	for _, second := range [][]raOpt{{}, {on("prefix/0")}, {on("mtu1280")}, {on("rdnss1")}, {on("route/0")}, {slla2}, {on("prefix/64"), on("mtu1500"), on("rdnss2"), on("dnssl"), slla2},
+		// the router keeps its first prefix and changes something else: another MTU, another resolver list, a second prefix, fewer options
+		{on("prefix/64"), on("mtu1280"), on("rdnss2"), on("dnssl"), on("slla")}, {on("prefix/64"), on("mtu1500"), on("rdnss1"), on("slla")},
+		{on("prefix/64"), on("prefix/128"), on("mtu1500"), on("rdnss2"), on("dnssl"), on("slla")}, {on("prefix/64")}} {
 		if !next() {
 			continue
 		}
